@@ -130,8 +130,12 @@ def run(c, chk):
                         tested_at = k
                         break
                 if tested_at is None and p.retval != res and not (f.retty != 'void' and failure_value(f, p.retval) and p.retval is not None and p.retval[0] != 'call'):
-                    a = next((x for x in allow_ign if x['function'] == f.name and x['callee'] == e.name), None)
-                    key = 'untested:%s:%s' % (f.name, e.name)
+                    target = None
+                    if f.name == 'cfg_parse_internal':
+                        target = next((k for k, v in p.next.items() if v == res and not k.startswith('%')), None) if hasattr(p, 'next') else None
+                    a = next((x for x in allow_ign if x['function'] == f.name and x['callee'] == e.name
+                              and (x.get('target') is None or x.get('target') == target)), None)
+                    key = 'untested:%s:%s%s' % (f.name, e.name, (':' + target) if target else '')
                     if a is None and key not in seen and f.name != 'cfg_parse_internal' or (a is None and key not in seen and f.name == 'cfg_parse_internal'):
                         seen.add(key)
                         site_bad.add(id(e.ins))
